@@ -116,12 +116,14 @@ def build_loader(variant: str, store: Store, cfg: dict, root: Path | None):
     from liquid2.builtin.loaders.mixins import CachingLoaderMixin
 
     cap, ar = cfg["capacity"], cfg["auto_reload"]
-    if variant == "mixin":
+    if variant in ("mixin", "mixints"):
         Inner = make_inner(store, cfg["fresh"])
 
         class Caching(CachingLoaderMixin, Inner):
             def __init__(self):
-                CachingLoaderMixin.__init__(self, auto_reload=ar, namespace_key="ns", capacity=cap)
+                # mixints: the lock-protected cache (thread_safe=True), same histories
+                CachingLoaderMixin.__init__(self, auto_reload=ar, namespace_key="ns", capacity=cap,
+                                            thread_safe=variant == "mixints")
                 Inner.__init__(self)
 
         return Caching()
@@ -216,7 +218,7 @@ def replay(hist: list[dict], variant: str, cfg: dict, scratch: Path, env_globals
             got = None
             if op["op"] == "load":
                 sp, nm, g = op["sp"], op["nm"], op["glob"]
-                kw = {"ns": sp} if variant in ("mixin", "choice", "dict") else {}
+                kw = {"ns": sp} if variant in ("mixin", "mixints", "choice", "dict") else {}
                 if op["mode"] == "sync":
                     def load_and_render():
                         t = env.get_template(nm, globals=globs(g), **kw)
@@ -282,7 +284,7 @@ def replay(hist: list[dict], variant: str, cfg: dict, scratch: Path, env_globals
                 return {"at": i, "clause": "cache-size", "expected": exp["size"], "got": size}
             if size > cfg["capacity"]:
                 return {"at": i, "clause": "capacity", "expected": cfg["capacity"], "got": size}
-            if variant in ("mixin", "choice"):
+            if variant in ("mixin", "mixints", "choice"):
                 inner = len(store.calls) > ncalls
                 if inner != exp["inner"]:
                     return {"at": i, "clause": "inner-call", "expected": exp["inner"], "got": inner}
@@ -420,7 +422,7 @@ def _stream_chunk(args):
 
 
 def real_loader_filter(h, variant):
-    if variant in ("mixin", "choice"):
+    if variant in ("mixin", "mixints", "choice"):
         return True
     if any(st["op"]["op"] == "fault" for st in h):
         return False
@@ -486,12 +488,12 @@ def check(tier: str) -> int:
     two = dict(Names='{"a","b"}', Spaces='{"n1","n2"}')
     one = dict(Names='{"a","b","c"}', Spaces='{"n1"}', Tasks="{1}")
     if thorough:
-        dbl = [(ar, fr, cap, 4, ["mixin", "choice"]) for ar, fr in (TT, FT, TF) for cap in (1, 2)]
+        dbl = [(ar, fr, cap, 4, ["mixin", "choice", "mixints"]) for ar, fr in (TT, FT, TF) for cap in (1, 2)]
         real = [(ar, cap, 4) for ar in ("TRUE", "FALSE") for cap in (1, 2)]
         sims = [(*TT, 2), (*FT, 2), (*TF, 3), (*TT, 3)]
         num, simops = 3000, 25
     else:
-        dbl = [(*TT, 2, 3, ["mixin", "choice"]), (*FT, 1, 3, ["mixin"]), (*TF, 2, 3, ["mixin"])]
+        dbl = [(*TT, 2, 3, ["mixin", "choice"]), (*FT, 1, 3, ["mixin"]), (*TF, 2, 3, ["mixin", "mixints"])]
         real = [("TRUE", 2, 3), ("FALSE", 1, 3)]
         sims = [(*TT, 2), (*TF, 3)]
         num, simops = 300, 12
@@ -514,7 +516,7 @@ def check(tier: str) -> int:
         run_config(chk, f"sim-ar{ar[0]}-fr{fr[0]}-cap{cap}",
                    constants(AutoReload=ar, Fresh=fr, Capacity=cap, MaxOps=simops, MaxVer=4,
                              Names='{"a","b","c"}', Spaces='{"n1","n2"}'),
-                   ["mixin", "choice"], simulate=f"num={num}", depth=120)
+                   ["mixin", "choice", "mixints"], simulate=f"num={num}", depth=120)
     chk.cov["explanation"] = ("exhaustive for the listed constants (all histories of MaxOps operations); "
                               "the sim-* runs are random walks (tlc -simulate), not exhaustive")
     return chk.finish()
